@@ -20,6 +20,7 @@ wL, wR, wO, wV = REF.wL, REF.wR, REF.wO, REF.wV
 vb = sfun("vb")
 G, Hh = sfun("G"), sfun("H")
 B, Bb = ssym("B"), ssym("Bb")
+pf = REF.pf
 
 
 def pt_coeff(p, base_sym):
@@ -353,3 +354,109 @@ def check_determinism(ck, F, pv, rule="R09.5"):
                 if not nm.startswith(ok_prefix):
                     bad.add((name, nm))
     ck.require(not bad, rule, "closed-inputs", f"sinks depend on inputs outside witness/statement/challenges/draws: {sorted(bad)[:6]}", where)
+
+
+# -- R01.5: completeness identities between the *extracted* prover and the *extracted* verifier ----
+
+
+def completeness_identities(ck, F, pv, rule="R01.5"):
+    """Substitute the prover's extracted sinks into the verifier's extracted combined check.
+    The inner-product part (terms in a, b, L, R) is replaced, by the folding theorem (trusted, C10),
+    with  <l, gf o G> + <r, hf o H> + <l,r> w B.  What remains must vanish identically as a formal sum
+    over the independent bases, except the B coefficient of the evaluation relation, which must be
+    x^2 * ( <y^n, aL o aR - aO> + <wL,aL> + <wR,aR> + <wO,aO> - <wV,v> - wc ): zero exactly when the
+    gates and the (z-flattened) linear constraints are satisfied."""
+    from . import spec_ref as REF
+    from .alg import Bounds
+
+    where = "prover.rs x verifier.rs"
+    A = AN.verifier_scalars(F)
+    scal = A["scalars"]
+    bnd = A["I"].bounds
+    pad = pv.pad
+    layout = REF.base_layout(pad)
+    s = pv.sinks
+    nz = pv.nz
+    c = pv.ipp
+    if c is None or lr_reference(pv) is None:
+        ck.fail(rule, "inputs", "prover sinks unavailable", where)
+        return
+    # prover values for the proof's scalar fields (n2 > 0 branch; the n2 = 0 branch is the instance n2 := 0)
+    def on(v):
+        ph = pv.phase2(v)
+        return ph[0] if ph else v
+
+    subs = {pf("t_x"): s["t_x"].e, pf("t_x_blinding"): s["t_x_blinding"].e, pf("e_blinding"): on(s["e_blinding"]).e, pf("a"): 0, pf("b"): 0}
+    pts = {"A_I1": s["A_I1"], "A_O1": s["A_O1"], "S1": s["S1"], "A_I2": on(s["A_I2"]), "A_O2": on(s["A_O2"]), "S2": on(s["S2"]), "T_1": s["T_1"], "T_3": s["T_3"], "T_4": s["T_4"], "T_5": s["T_5"], "T_6": s["T_6"]}
+    j = isym("_j")
+    R_ = REF.R
+    acc = {0: [], 1: []}  # formal-sum terms per power of r
+    coefB = {0: sp.Integer(0), 1: sp.Integer(0)}
+    coefBb = {0: sp.Integer(0), 1: sp.Integer(0)}
+    off = sp.Integer(0)
+
+    def split_r(e):
+        e = sp.expand(sp.sympify(e).xreplace(subs))
+        c0 = e.subs(R_, 0)
+        c1 = sp.expand(sp.diff(e, R_)).subs(R_, 0)
+        return sp.expand(c0), sp.expand(c1), sp.expand(e - c0 - R_ * c1)
+
+    kk = isym("_kk")
+    for name, n, bf in layout:
+        n = sp.sympify(n)
+        part = scal.slice(off, sp.expand(off + n), bnd)
+        off = sp.expand(off + n)
+        if name in ("L", "R"):
+            continue
+        sub_off = sp.Integer(0)
+        for sg in part.nonempty_segs():
+            e_at = lambda jj, sg=sg: sg.f(jj).e
+            if name == "B":
+                c0, c1, rest = split_r(e_at(sp.Integer(0)))
+                coefB[0] += c0
+                coefB[1] += c1
+            elif name == "B_blinding":
+                c0, c1, rest = split_r(e_at(sp.Integer(0)))
+                coefBb[0] += c0
+                coefBb[1] += c1
+            elif name.startswith(("G[", "H[")):
+                fam = G if name.startswith("G[") else Hh
+                base_lo = {"[0,n1)": sp.Integer(0), "[n1,n)": n1, "[n,N)": n1 + n2}[name[1:]] + sub_off
+                for pw in (0, 1):
+                    acc[pw].append((sg.n, (lambda jj, fam=fam, base_lo=base_lo: fam(base_lo + jj)), (lambda jj, e_at=e_at, pw=pw: split_r(e_at(jj))[pw])))
+            elif name == "V":
+                c0, c1, rest = split_r(e_at(kk))
+                for pw, cc in ((0, c0), (1, c1)):
+                    coefB[pw] += mk_sum(sg.n, cc * sfun("v")(sub_off + kk), kk)
+                    coefBb[pw] += mk_sum(sg.n, cc * vb(sub_off + kk), kk)
+            else:
+                P = pts[name]
+                c0, c1, rest = split_r(e_at(sp.Integer(0)))
+                for pw, cc in ((0, c0), (1, c1)):
+                    if cc != 0:
+                        acc[pw] += P.scale(cc).terms
+            sub_off = sp.expand(sub_off + sg.n)
+    # subtract the inner-product statement the prover hands to create: <l, gf o G> + <r, hf o H> + <l,r> w B  (r^0 part)
+    from .alg import zip_vecs
+
+    for vec, fac, fam in ((c["a_vec"], c["G_factors"], G), (c["b_vec"], c["H_factors"], Hh)):
+        z = zip_vecs(vec, fac, bnd)
+        o2 = sp.Integer(0)
+        for sg in z.nonempty_segs():
+            acc[0].append((sg.n, (lambda jj, fam=fam, o2=o2: fam(o2 + jj)), (lambda jj, sg=sg: -sg.f(jj).items[0].e * sg.f(jj).items[1].e)))
+            o2 = sp.expand(o2 + sg.n)
+    coefB[0] += -W * s["t_x"].e
+    # ---- r^0: opening relation vanishes identically
+    F0 = Pt(acc[0] + [(sp.Integer(1), lambda jj: B, lambda jj: coefB[0]), (sp.Integer(1), lambda jj: Bb, lambda jj: coefBb[0])])
+    res0 = {k: v for k, v in F0.canon().items() if not eq(v, 0)}
+    ck.require(not res0, rule, "opening-relation", f"with the prover's A_I, A_O, S, e_blinding, l(x), r(x) and factor vectors substituted, the verifier's opening relation must reduce to the inner-product statement handed to `create`; residual terms: {[(k[0][:40], str(v)[:80]) for k, v in list(res0.items())[:3]]}", where, detail="formal sum over B, B~, G_i, H_i vanishes (mod folding theorem)")
+    # ---- r^1: evaluation relation
+    F1 = Pt(acc[1] + [(sp.Integer(1), lambda jj: Bb, lambda jj: coefBb[1])])
+    totalB = sp.expand(coefB[1] + pt_coeff(Pt(acc[1]), B))
+    res1 = {k: v for k, v in F1.canon().items() if not eq(v, 0) and k[0] != sp.srepr(B)}
+    ck.require(not res1, rule, "evaluation-relation:blinding", f"B_blinding / generator coefficients of the evaluation relation must cancel with the prover's tau_k and t_x_blinding; residual: {[(k[0][:40], str(v)[:80]) for k, v in list(res1.items())[:3]]}", where)
+    nn = n1 + n2
+    gate = mk_sum(nn, Y**kk * (aL(kk) * aR(kk) - aO(kk)), kk)
+    lin = mk_sum(nn, wL(kk) * aL(kk) + wR(kk) * aR(kk) + wO(kk) * aO(kk), kk) - mk_sum(m, wV(kk) * sfun("v")(kk), kk) - REF.wc
+    want = -(X**2) * (gate + lin)
+    ck.require(eq(totalB, want), rule, "evaluation-relation:value", "the B coefficient of the evaluation relation must be -x^2 ( <y^n, aL o aR - aO> + <wL,aL>+<wR,aR>+<wO,aO> - <wV,v> - wc ): it vanishes exactly when gates and flattened constraints are satisfied", where, detail="t_2 = delta + wc + <wV,v> under satisfaction")
